@@ -1,162 +1,130 @@
 ------------------------------- MODULE TankCtl -------------------------------
 (***************************************************************************)
 (* C05 / C06 - the level-control logic of run_sim against an ADVERSARIAL   *)
-(* hydraulic environment.  One tank, one controlled supply link, a demand; *)
-(* the environment chooses the inflow through the link (when it is open)   *)
-(* and the outflow at every solve, so TLC explores every evolution of the  *)
-(* tank level inside the bounds.  Abstract units: time in ticks (H ticks   *)
-(* per hydraulic step), level in integer units, flows in level units per   *)
-(* tick, tank area 1.                                                      *)
+(* hydraulic environment ("bucket family").  One tank, one controlled      *)
+(* supply link, one demand; the environment fixes, for every hydraulic     *)
+(* interval, the inflow through the link (when it is open) and the         *)
+(* outflow, so TLC explores every evolution of the tank level inside the   *)
+(* bounds.  Units: time in seconds, level in integer units, flows in level *)
+(* units per second (tank area 1).  Levels are even, thresholds odd and    *)
+(* flows even, so that a level never equals a threshold and the back-track *)
+(* quotient is never an integer (both are outcomes left open).             *)
 (*                                                                         *)
 (* The algorithm follows wntr/sim/core.py and controls.py:                 *)
 (*  - update_tank_heads: level = prevLevel + q * (now - prevT)  (Euler)    *)
 (*  - TankLevelCondition.evaluate: '>' is read as '>=', the condition      *)
 (*    keeps _last_value; when it turns true the back-track is              *)
-(*    floor((level - thr) / q) ticks; _last_value := level at EVERY        *)
+(*    floor((level - thr) / q) seconds; _last_value := level at EVERY      *)
 (*    evaluation                                                           *)
-(*  - presolve: controls that need to run, sorted by priority and then by  *)
-(*    decreasing back-track; the group with the largest back-track fires;  *)
-(*    if something changed, sim_time -= back-track and the search stops    *)
+(*  - presolve: the controls that need to run, by priority and then by     *)
+(*    decreasing back-track; groups fire in that order; the first group    *)
+(*    whose firing changes something fixes the time (sim_time -= back)     *)
 (*  - tank heads are recomputed for the chosen time; solve (environment);  *)
-(*    post-solve: the same controls are evaluated again on the solved      *)
-(*    state; a change forces a re-solve (trial + 1)                        *)
+(*    post-solve: the same controls are evaluated on the solved state; a   *)
+(*    change forces a re-solve (trial + 1)                                 *)
 (*  - accept: prevT, prevLevel := now, level; now += H                     *)
-(* Tank min / max limits are the two internal controls of                  *)
-(* _get_all_tank_controls on the supply / demand side (C06).               *)
+(* Scenarios come from IOEnv.SCN (a JSON batch written by the harness or   *)
+(* enumerated by it from the constants of the configuration); the expected *)
+(* rows are emitted for replay on a real bucket network.                   *)
 (***************************************************************************)
-EXTENDS Integers, Sequences, FiniteSets, TLC
+EXTENDS Integers, Sequences, FiniteSets, TLC, Json, IOUtils
 
-CONSTANTS H,          \* ticks per hydraulic step
-          Steps,      \* number of hydraulic steps
-          Thr,        \* candidate thresholds
-          Init0,      \* candidate initial levels
-          MaxL, MinL  \* tank limits (C06)
-
-\* a control: [rel |-> ">" | "<", thr, val (0 close / 1 open the supply link), prio]
-CtlSets == { <<a, b>> : a \in [rel : {"<"}, thr : Thr, val : {1}, prio : {3}],
-                         b \in [rel : {">"}, thr : Thr, val : {0}, prio : {1, 3}] }      \* hysteresis pairs
-           \cup { <<a, b, c>> : a \in [rel : {"<"}, thr : Thr, val : {1}, prio : {3}],
-                               b \in [rel : {">"}, thr : Thr, val : {0}, prio : {3}],
-                               c \in [rel : {">"}, thr : Thr, val : {1}, prio : {1}] }     \* a third threshold above
-
-VARIABLES ctl,        \* the controls (constant of the behaviour)
+VARIABLES scn,        \* [H, steps, ctl: seq of [rel, thr, val, prio], init, st0, env: seq of [fin, dout] per hydraulic interval]
           now, prevT, first,
           level, prevLevel,
           q,          \* tank net inflow of the last solve (tank.demand)
           last,       \* sequence of TankLevelCondition._last_value
-          st,         \* status of the supply link as commanded by controls (1 open)
-          lim,        \* internal statuses: [sup |-> supply closed by the max-level rule, dem |-> demand side closed by the min-level rule]
+          st,         \* status of the supply link (1 open)
           trial, pc,
           rows        \* accepted rows [t, level, st, q]
-vars == <<ctl, now, prevT, first, level, prevLevel, q, last, st, lim, trial, pc, rows>>
+vars == <<scn, now, prevT, first, level, prevLevel, q, last, st, trial, pc, rows>>
+Scenarios == JsonDeserialize(IOEnv.SCN)
+ctl == scn.ctl
 
 Holds(c, v) == IF c.rel = ">" THEN v >= c.thr ELSE v <= c.thr       \* '>' / '<' are treated as '>=' / '<='
-\* floor division for the back-track (both operands have the same sign when the condition has just turned true)
-Back(c, v, flow) == IF flow = 0 THEN 0 ELSE LET d == v - c.thr IN IF (d >= 0) = (flow > 0) THEN (IF d >= 0 THEN d \div flow ELSE (-d) \div (-flow)) ELSE 0
-
-\* evaluate all conditions on level v: returns [run |-> set of indices to run, back |-> function index -> back-track]
+\* floor((v - thr) / flow): taken when the condition has just turned true, i.e. (v - thr) and flow have the same sign
+Back(c, v, flow) == LET d == v - c.thr IN
+                    IF flow = 0 \/ d = 0 \/ (d > 0) # (flow > 0) THEN 0 ELSE (IF d > 0 THEN d \div flow ELSE (-d) \div (-flow))
 Eval(v) ==
   [run  |-> {i \in DOMAIN ctl : Holds(ctl[i], v)},
    back |-> [i \in DOMAIN ctl |-> IF Holds(ctl[i], v) /\ ~Holds(ctl[i], last[i]) THEN Back(ctl[i], v, q) ELSE 0]]
-
-\* run a set of controls in ascending priority (the highest acts last); returns the status
+\* run a set of controls in ascending priority (the highest acts last)
 RECURSIVE Fire(_, _)
 Fire(S, s) == IF S = {} THEN s
               ELSE LET i == CHOOSE x \in S : \A y \in S : ctl[x].prio < ctl[y].prio \/ (ctl[x].prio = ctl[y].prio /\ x <= y)
                    IN  Fire(S \ {i}, ctl[i].val)
 
-Init == /\ ctl \in CtlSets
-        /\ \A i \in DOMAIN ctl : \A j \in DOMAIN ctl : (ctl[i].rel = "<" /\ ctl[j].rel = ">") => ctl[i].thr < ctl[j].thr
+Init == /\ scn \in {Scenarios[k] : k \in DOMAIN Scenarios}
         /\ now = 0 /\ prevT = -1 /\ first = TRUE
-        /\ level \in Init0 /\ prevLevel = level /\ q = 0
-        /\ last = [i \in DOMAIN ctl |-> level]
-        /\ st \in {0, 1} /\ lim = [sup |-> FALSE, dem |-> FALSE]
+        /\ level = scn.init /\ prevLevel = level /\ q = 0
+        /\ last = [i \in DOMAIN scn.ctl |-> scn.init]
+        /\ st = scn.st0
         /\ trial = 0 /\ pc = "presolve" /\ rows = <<>>
 
 LevelAt(t) == IF first THEN level ELSE prevLevel + q * (t - prevT)
 
-\* update_tank_heads, presolve check, choice of the next time, update_tank_heads again
 Presolve ==
   /\ pc = "presolve"
   /\ LET v == LevelAt(now)
          e == Eval(v)
-         \* internal tank rules (pre- and post-solve): close the supply at max level, the demand side at min level
-         maxHit == v >= MaxL  minHit == v <= MinL
-         backs == {IF first THEN 0 ELSE e.back[i] : i \in e.run}
-         \* groups in decreasing back-track order: the first group whose firing changes something decides the time
+         bk(i) == IF first THEN 0 ELSE e.back[i]
          RECURSIVE Pick(_, _)
          Pick(B, s) == IF B = {} THEN [b |-> 0, s |-> s]
                        ELSE LET b == CHOOSE x \in B : \A y \in B : x >= y
-                                g == {i \in e.run : (IF first THEN 0 ELSE e.back[i]) = b}
-                                s2 == Fire(g, s)
+                                s2 == Fire({i \in e.run : bk(i) = b}, s)
                             IN  IF s2 # st THEN [b |-> b, s |-> s2] ELSE Pick(B \ {b}, s2)
-         p == Pick(backs, st)
-         \* the tank-limit rules back-track too (ValueCondition on the tank head is a TankLevelCondition)
-         bmax == IF maxHit /\ ~lim.sup /\ q > 0 /\ ~first THEN (v - MaxL) \div q ELSE 0
-         bmin == IF minHit /\ ~lim.dem /\ q < 0 /\ ~first THEN (MinL - v) \div (-q) ELSE 0
-         b == IF bmax > p.b THEN (IF bmin > bmax THEN bmin ELSE bmax) ELSE IF bmin > p.b THEN bmin ELSE p.b
-         t == now - b
-         v2 == LevelAt(t)
+         p == Pick({bk(i) : i \in e.run}, st)
+         t == now - p.b
      IN  /\ now' = t
-         /\ level' = v2
+         /\ level' = LevelAt(t)                              \* update_tank_heads for the chosen time
          /\ last' = [i \in DOMAIN ctl |-> v]                 \* every evaluated condition remembers the value it saw
-         \* only the groups up to the chosen back-track have fired
-         /\ st' = IF b = p.b THEN p.s ELSE st
-         /\ lim' = [sup |-> lim.sup \/ (b = bmax /\ bmax > 0) \/ (b = 0 /\ maxHit),
-                    dem |-> lim.dem \/ (b = bmin /\ bmin > 0) \/ (b = 0 /\ minHit)]
+         /\ st' = p.s
   /\ trial' = 0 /\ pc' = "solve"
-  /\ UNCHANGED <<ctl, prevT, first, prevLevel, q, rows>>
+  /\ UNCHANGED <<scn, prevT, first, prevLevel, q, rows>>
 
-\* the environment: any inflow through the open supply link, any outflow through the open demand side
+\* the environment of this hydraulic interval
 Solve == /\ pc = "solve"
-         /\ \E fin \in {1, 2}, dout \in {0, 1, 2} :
-              q' = (IF st = 1 /\ ~lim.sup THEN fin ELSE 0) - (IF lim.dem THEN 0 ELSE dout)
+         /\ LET e == scn.env[(now \div scn.H) + 1] IN q' = (IF st = 1 THEN e.fin ELSE 0) - e.dout
          /\ pc' = "postsolve"
-         /\ UNCHANGED <<ctl, now, prevT, first, level, prevLevel, last, st, lim, trial, rows>>
+         /\ UNCHANGED <<scn, now, prevT, first, level, prevLevel, last, st, trial, rows>>
 
-\* post-solve: the same conditions on the solved state; tank-limit rules re-open when the level has moved away
 PostSolve ==
   /\ pc = "postsolve"
   /\ LET e == Eval(level)
          s2 == Fire(e.run, st)
-         lim2 == [sup |-> level >= MaxL, dem |-> level <= MinL]
      IN  /\ last' = [i \in DOMAIN ctl |-> level]
-         /\ IF s2 # st \/ lim2 # lim
-            THEN /\ st' = s2 /\ lim' = lim2 /\ trial' = trial + 1 /\ pc' = "solve"
+         /\ IF s2 # st
+            THEN /\ st' = s2 /\ trial' = trial + 1 /\ pc' = "solve"
                  /\ UNCHANGED <<now, prevT, first, level, prevLevel, q, rows>>
-            ELSE /\ rows' = Append(rows, [t |-> now, level |-> level, st |-> st, q |-> q, lim |-> lim])
+            ELSE /\ rows' = Append(rows, [t |-> now, level |-> level, st |-> st, q |-> q])
                  /\ prevT' = now /\ prevLevel' = level /\ first' = FALSE
-                 /\ now' = ((now + H) \div H) * H
-                 /\ pc' = IF now' > Steps * H THEN "done" ELSE "presolve"
-                 /\ UNCHANGED <<st, lim, trial, level, q>>
-  /\ UNCHANGED ctl
+                 /\ now' = ((now + scn.H) \div scn.H) * scn.H
+                 /\ pc' = IF now' > scn.steps * scn.H THEN "done" ELSE "presolve"
+                 /\ UNCHANGED <<st, trial, level, q>>
+  /\ UNCHANGED scn
 
 Next == Presolve \/ Solve \/ PostSolve
 Spec == Init /\ [][Next]_vars
 
 \* ------------------------------------------------------------------ properties
-Triggered(c, v) == IF c.rel = ">" THEN v > c.thr ELSE v < c.thr          \* strictly: the boundary itself is open
-\* C05.ctl_consistent: on every accepted row a triggered control's link has the commanded status unless a
-\* conflicting triggered control of equal or higher priority exists (or the tank limit rule holds the link closed)
+Triggered(c, v) == IF c.rel = ">" THEN v > c.thr ELSE v < c.thr
+AbsI(x) == IF x < 0 THEN -x ELSE x
+\* C05.ctl_consistent
 CtlConsistent ==
   \A k \in DOMAIN rows : \A i \in DOMAIN ctl :
      LET r == rows[k]  c == ctl[i] IN
      Triggered(c, r.level) =>
         \/ r.st = c.val
         \/ \E j \in DOMAIN ctl : j # i /\ Holds(ctl[j], r.level) /\ ctl[j].prio >= c.prio /\ ctl[j].val # c.val
-\* C05.no_overshoot: a threshold whose crossing changes the link is met within two ticks of flow
+\* C05.no_overshoot: a threshold whose crossing changes the link is met within two seconds of flow
 NoOvershoot ==
   \A k \in DOMAIN rows : k > 1 => \A i \in DOMAIN ctl :
      LET p == rows[k - 1]  r == rows[k]  c == ctl[i] IN
      (~Holds(c, p.level) /\ Triggered(c, r.level) /\ p.st # c.val /\ r.st = c.val)
-        => (IF c.rel = ">" THEN r.level - c.thr ELSE c.thr - r.level) <= 2 * (IF p.q < 0 THEN -p.q ELSE p.q)
-\* C06.tank_step and C06.tank_limits
+        => AbsI(r.level - c.thr) <= 2 * AbsI(p.q)
+\* C06.tank_step, C16.index_increasing, bounded re-solves
 TankStep == \A k \in DOMAIN rows : k > 1 => rows[k].level = rows[k - 1].level + rows[k - 1].q * (rows[k].t - rows[k - 1].t)
-TankLimits == \A k \in DOMAIN rows : k > 1 =>
-                 LET a == IF rows[k - 1].q < 0 THEN -rows[k - 1].q ELSE rows[k - 1].q IN
-                 rows[k].level <= MaxL + 2 * a /\ rows[k].level >= MinL - 2 * a
-NoFillAtMax == \A k \in DOMAIN rows : rows[k].level >= MaxL => rows[k].q <= 0
-NoDrainAtMin == \A k \in DOMAIN rows : rows[k].level <= MinL => rows[k].q >= 0
 TimesIncrease == \A k \in DOMAIN rows : k > 1 => rows[k].t > rows[k - 1].t
-TrialsBounded == trial <= 3
+TrialsBounded == trial <= Len(scn.ctl) + 1
+Emit == pc = "done" /\ IOEnv.EMIT = "1" => PrintT(<<"ROWS", ToJson([id |-> scn.id, rows |-> rows])>>)
 =============================================================================
